@@ -134,6 +134,50 @@ def main():
     if not call:
         die("the call of process_minidump_with_options was not found")
 
+    # ---------------------------------------------------------------- the order of the steps of main_result
+    landmarks = [
+        ("parse", r"let cli = Cli::parse\(\);"),
+        ("log_create", r"File::create\(log_path\)"),
+        ("panic_hook", r"panic::set_hook\("),
+        ("help_markdown", r"if cli\.help_markdown \{"),
+        ("mode_munging", r"let mut human = !json && !raw_dump;"),
+        ("cyborg_desugar", r"if cli\.cyborg\.is_some\(\) \{\s*human = true;\s*json = true;\s*\}"),
+        ("pretty_check", r"if cli\.pretty && !json \{"),
+        ("brief_check", r"if cli\.brief && !\(human \|\| raw_dump\) \{"),
+        ("features_match", r"let mut options = match &\*cli\.features \{"),
+        ("overrides", r"options\.evil_json ="),
+        ("read_path", r"match Minidump::read_path\(cli\.minidump\) \{"),
+        ("cyborg_create", r"cli\.cyborg\.map\(File::create\)"),
+        ("output_create", r"File::create\(output_path\)"),
+        ("dump_dispatch", r"if raw_dump \{\s*return print_minidump_dump\(&dump, &mut output, cli\.brief\);\s*\}"),
+        ("process", r"minidump_processor::process_minidump_with_options\("),
+        ("print_human", r"if human \{\s*if cli\.brief \{\s*state\.print_brief\(&mut output\)\?;\s*\} else \{\s*state\.print\(&mut output\)\?;\s*\}\s*\}"),
+        ("print_json", r"if json \{"),
+        ("process_error", r'error!\("\{\} - Error processing dump: \{\}", err\.name\(\), err\);\s*std::process::exit\(1\);'),
+        ("read_error", r'error!\("\{\} - Error reading dump: \{\}", err\.name\(\), err\);\s*std::process::exit\(1\);'),
+    ]
+    where = []
+    for name, rx in landmarks:
+        ms = list(re.finditer(rx, body))
+        if len(ms) != 1:
+            die("step `%s` of main_result: expected one match of /%s/, found %d" % (name, rx, len(ms)))
+        where.append((ms[0].start(), name))
+    main_steps = [n for _p, n in sorted(where)]
+    exits = re.findall(r"std::process::exit\(([^()]*)\)", code)
+    n_err = len(re.findall(r"(?<![\w:])error!\(", body))
+    if n_err != 6:
+        die("expected six error!(..) calls in main_result (panic hook, two rejections, system info, processing error, read error), found %d" % n_err)
+    # the harness builds the expected log line from the library's error with the same two format strings
+    hpath = os.path.join(os.path.dirname(os.path.abspath(__file__)), "..", "harness", "src", "bin", "c20.rs")
+    try:
+        hsrc = open(hpath).read()
+    except OSError:
+        hsrc = None
+    if hsrc is not None:
+        for fmt in ('"{} - Error reading dump: {}"', '"{} - Error processing dump: {}"'):
+            if len(re.findall(re.escape("format!(" + fmt + ", e.name(), e)"), hsrc)) != 1:
+                die("harness/src/bin/c20.rs does not build its expected diagnostic with format!(%s, e.name(), e)" % fmt)
+
     def lst(xs):
         return "[" + "; ".join('"%s"' % x for x in xs) + "]"
 
@@ -154,8 +198,10 @@ def main():
           "Definition TMP_DEFAULT : string := \"temp_dir\".\n" \
           "Definition FEATURE_ARMS : list (string * string) := %s.\n" \
           "Definition OPTION_OVERRIDES : list (string * string * string) := %s.\n" \
-          "Definition PROCESS_ARGS : string := \"%s\".\n" % (
-              pairs(sink_opens), "; ".join("true" if c == "File::create" else "false" for _n, c in sink_opens), lst(http_args), lst(simple_args), pairs(arms), pairs(overrides), call.group(1))
+          "Definition PROCESS_ARGS : string := \"%s\".\n" \
+          "Definition MAIN_STEPS : list string := %s.   (* landmarks of main_result in source order *)\n" \
+          "Definition EXIT_CALLS : list string := %s.   (* arguments of every std::process::exit in main.rs *)\n" % (
+              pairs(sink_opens), "; ".join("true" if c == "File::create" else "false" for _n, c in sink_opens), lst(http_args), lst(simple_args), pairs(arms), pairs(overrides), call.group(1), lst(main_steps), lst(exits))
     path = os.path.join(outdir, "C20Wiring.v")
     os.makedirs(outdir, exist_ok=True)
     try:
